@@ -18,11 +18,11 @@ from props import c03
 
 PROPERTY = "C08"
 LEVEL = "exploration"
-RULE = ("models x N in 2..4 x every missing-data mask of the n_y x N panel x deviation x data vector; distinct non-trivial = "
+RULE = ("models x N in 2..4 (thorough 2..6, 2..8 with one observable) x every missing-data mask of the n_y x N panel x deviation x data vector; distinct non-trivial = "
         "(model, N, mask, deviation, data) with at least one observed cell")
 MANIFEST_ENTRY = dict(level="exploration", design="DESIGN.md section 4 / C08",
     technique="bounded-exhaustive enumeration of all missing-data masks on generated state-space models; data reproduction, residual substitution into the harness's own equations, re-simulation and level/deviation differential oracles",
-    text="For the 13 (quick) / 18 (thorough) solved models of C03 and 4 unit-root models (trend-cycle, and a unit root whose drift comes through a stable variable: non-flat steady state) under the default diffuse initialisation (incl. log observables, lagged state in the measurement equation, no-measurement-shock and forward-looking models), every N in 2..4 and EVERY missing-data mask: smoothed and updated medians equal the data in every observed cell; every measurement equation holds in every observed cell with smoothed states and smoothed measurement shocks; every transition equation of a backward-looking model holds exactly with the smoothed shocks; simulating the model (real first-order simulator) from the smoothed initial condition with the smoothed shocks reproduces the smoothed variables; the filter in deviation mode on data minus (over, for log-variables) the harness's own steady state equals level-mode results minus steady state (stationary models: the harness's own steady state; unit-root models: the model's own steady path, masks that do not identify the unit-root level counted, not judged); with shock means supplied as data (an unanticipated mean and an anticipated shock known from the start) the data are reproduced and the re-simulation holds with the given anticipated shocks.",
+    text="For the 13 (quick) / 18 (thorough) solved models of C03 and 4 unit-root models (trend-cycle, and a unit root whose drift comes through a stable variable: non-flat steady state) under the default diffuse initialisation (incl. log observables, lagged state in the measurement equation, no-measurement-shock and forward-looking models), every N in 2..4 (thorough: 2..8 with one observable, 2..6 with two) and EVERY missing-data mask: smoothed and updated medians equal the data in every observed cell; every measurement equation holds in every observed cell with smoothed states and smoothed measurement shocks; every transition equation of a backward-looking model holds exactly with the smoothed shocks; simulating the model (real first-order simulator) from the smoothed initial condition with the smoothed shocks reproduces the smoothed variables; the filter in deviation mode on data minus (over, for log-variables) the harness's own steady state equals level-mode results minus steady state (stationary models: the harness's own steady state; unit-root models: the model's own steady path, masks that do not identify the unit-root level counted, not judged); with shock means supplied as data (an unanticipated mean and an anticipated shock known from the start) the data are reproduced and the re-simulation holds with the given anticipated shocks.",
     note="Trusted: ref/linre.py equations and steady state; first-order simulator (C01). prepend_initial is not used (it crashes on this code base - adjacent defect outside the statement), so equations needing pre-sample smoothed states are checked from the first period where all lags are inside the span.")
 ASSUMPTIONS = ["the first-order simulator is correct (C01)"]
 
@@ -287,7 +287,7 @@ def run(ctx, total, info):
     shards = []
     for spec in all_models(ctx.tier):
         ny = len(spec.meas)
-        maxN = 4
+        maxN = 4 if ctx.quick else (8 if ny == 1 else 6)
         for N in range(2, maxN + 1):
             for dev in (False, True):
                 shards.append({"spec": spec.to_json(), "N": N, "dev": dev, "w": 2 ** (ny * N)})
